@@ -4,9 +4,8 @@ anchor src/write/abbrev.rs).  Build = core.populate; wcore.populate; populate.  
 WHY.  A seeded defect (`w.write_sleb128(self.implicit_const_value)` -> `w.write_uleb128(self.implicit_const_value as u64)`
 in AttributeSpecification::write) was missed by C11: batch wunit has `Abbreviation::new` / `AttributeSpecification::new`
 under contract and MODELS the table; the three functions that emit the section were under no contract.  The operand of
-DW_FORM_implicit_const in the declaration is a SIGNED LEB128 number (DWARF 5 7.5.3): written unsigned, 64..127 read back
-negative and a negative value makes the table unparsable (10-byte ULEB128 where an SLEB128 is expected is accepted, but
-the VALUE differs; with the 64-bit pattern of a negative number the reader's i64 read overflows).
+DW_FORM_implicit_const in the declaration is a SIGNED LEB128 number (DWARF 5 7.5.3): written unsigned, the values 64..127
+read back negative and negative values make the table unparsable.
 
 THE SPEC (vx/specs/wabbrev.rs, module crate::waspec) is written from DWARF 5 section 7.5.3, not from the code:
   abbrev_table_ops(decls)  = for i in 0..n: abbrev_decl_ops(i + 1, decls[i])   then the null code (one 0 byte)
@@ -55,7 +54,24 @@ NOT DECIDED
     connection here is the table cross-check, not a proof).  A terminator written with write_uleb128(0) instead of write_u8(0)
     has the same bytes but a different field kind and would be REPORTED (the spec names the one-byte field).
   * `Ok` is never guaranteed (a Writer may fail for its own reasons); on Err only the frame is stated.
-SELF-ATTACK (scratch copy of /repo, GIMLI_REPO; 2026-09-24): see the table at the end of this file's report (MUTANTS).
+SELF-ATTACK (scratch copy of /repo, GIMLI_REPO=<copy> python3 vx/run.py wabbrev; 2026-09-24; unchanged /repo: exit 0, 61 fns,
+  3 canaries fail as they must).  Every mutant below: exit 1, failing clauses all TAGGED:
+  M0 (the seeded defect) implicit const through write_uleb128(.. as u64) -> abbrev-attr-spec, abbrev-implicit-const-sleb, abbrev-attr-spec-len
+  M1 children flag inverted (`if !self.has_children`)                    -> abbrev-decl (loop-entry invariant)
+  M2 (0, 0) terminator written as ONE byte                               -> abbrev-decl, abbrev-decl-terminator, abbrev-decl-len
+  M3 code written 0-based (`code as u64`)                                -> abbrev-table-codes, abbrev-table-len (loop invariants)
+  M4 implicit const operand written for EVERY form                       -> abbrev-attr-spec, abbrev-implicit-const-sleb, abbrev-attr-spec-len
+  M6 table terminator dropped (`Ok(())` for `w.write_u8(0)`)            -> abbrev-table-codes, abbrev-table-terminator, abbrev-table-len
+     (exit 1 through run.py; ONE module-only preview of this mutant ended in a resource limit at rlimit 40 instead - a false goal
+     over the recursive abbrev_table_decls_ops under extensional equality; run.py's RETRY_RLIMIT retries are there for that)
+  module-only previews (verus --verify-only-module write::abbrev): name/form swapped -> abbrev-attr-spec; tag written after the
+  children byte -> abbrev-decl; terminator through write_uleb128(0) -> abbrev-decl, abbrev-decl-terminator (same bytes, other field
+  kind: reported, see NOT DECIDED).
+  Build-time cross-check, negative tests: operand kind uleb, children kind uleb, tag before code, DW_CHILDREN_yes = 2,
+  DW_FORM_implicit_const = 0x22 in the writer table -> TableMismatch (exit 2) each.
+VERUS NOTES  `wrote_ext` (open spec fn with `=~=`) lets the solver discharge every sequence equality without a single hint, so
+  the only anchors in the source are the two `for` headers (loop labels): an edit elsewhere can fail a clause, not lose an anchor.
+  `code + 1`: Verus knows `v@.len() <= usize::MAX` only through the exec-typed `v.len()` (invariant `abbrevs@.len() == abbrevs.len()`).
 """
 import re
 from lib import *
